@@ -340,7 +340,8 @@ def check_exchange(S, rec, rng):
     # sub-delims, ':' and '@' may appear literally in a path (RFC 3986 pchar); sometimes they are sent unescaped
     target = quote(path, safe="/" if rng.random() < 0.6 else "/;=,@:!$&'()*+")
     qs = rng.choice(["", "a=1&b=%C3%A9", "x=%20%2F&y", "raw=é".encode().decode("latin1"), "q=a+b&&="])
-    method = rng.choice(["GET", "POST", "PUT", "DELETE", "OPTIONS", "PATCH", "HEAD"])
+    # any token is a method (RFC 9110 9.1): extension methods carry '-', '_', digits
+    method = rng.choice(["GET", "POST", "PUT", "DELETE", "OPTIONS", "PATCH", "HEAD", "GET", "POST", "M-SEARCH", "VERSION-CONTROL", "PURGE2", "X_PURGE", "get"])
     absform = rng.random() < 0.1
     # absolute-form targets name any authority: a port, a port number no socket has, text where the port should be
     absnet = rng.choice(["abs.example", "abs.example", "abs.example:8080", "abs.example:99999", "abs.example:abc", "abs.example:"]) if absform else None
